@@ -23,8 +23,9 @@ func TestVerif_C12_Storage(t *testing.T) {
 	defer r.Write(t)
 	r.Note("observation outside C12: when the unseal of a namespace fails in post-unseal (e.g. because of the mount conflict above) the rollback re-seals it through SealNamespace with the root-namespace active context, which stores the namespace's record in the root namespace's store; a later start of the core then fails with 'error loading initial namespaces: can't insert namespace with missing parent'; worlds in which a namespace unseal failed are therefore not restarted")
 	r.Note("observation outside C12: unsealNamespace reloads only the direct children of the unsealed namespace (it passes the namespace-scoped view as the barrier to loadNamespacesRecursive), deeper namespaces stay unknown to the core until a full reload")
+	r.Note("observation outside C12: ExpirationManager.removeIndexByToken dereferences a nil namespace (process-wide panic in a background worker) when a lease is revoked whose token's namespace is no longer in the namespace store, e.g. a revocation job racing with the sealing of an ancestor namespace; the workload waits for storage quiescence before sealing")
 	r.Note("observation outside C12: a remount into another namespace (Core.moveStorage) does not terminate, holding mountsLock, when the mount's storage holds a key with an empty path segment (a//b, /a, a/), because listed names are re-joined with path.Join; the workload therefore moves only mounts that never stored such a key across namespaces")
-	topos := kit.N(10, 160)
+	topos := kit.N(10, 320)
 	reqs := kit.N(800, 4000)
 	for ti := 0; ti < topos; ti++ {
 		if ti%shards != shard {
@@ -36,7 +37,8 @@ func TestVerif_C12_Storage(t *testing.T) {
 		}
 		rng := kit.NewRand(seed, 0x12000+uint64(ti))
 		// every second world also tries to mount inside the path of a sealed namespace
-		c12StorageCase(t, r, rng, caseID, ti%2 == 0, ti%5 == 4, ti%2 == 1, reqs)
+		// (mixed so that every shard of 8 sees every combination)
+		c12StorageCase(t, r, rng, caseID, (ti/2+ti/8)%2 == 0, ti%5 == 4, (ti+ti/8)%2 == 1, reqs)
 		if r.NViolations() > 30 {
 			break
 		}
@@ -99,6 +101,14 @@ func c12StorageCase(t *testing.T, r *kit.Result, rng *kit.Rand, caseID string, t
 	for s.iter = 0; s.iter < reqs; s.iter++ {
 		if w.failed && r.NViolations() > 12 {
 			break
+		}
+		if s.sealedNS == nil {
+			for _, n := range w.nss {
+				if n.Sealable && n.Sealed && !n.Parent.effSealed() {
+					s.sealedNS, s.unsealAt = n, s.iter+10 // sealed behind our back (see sync): unseal it later
+					break
+				}
+			}
 		}
 		if s.sealedNS != nil && s.iter >= s.unsealAt {
 			s.endSeal()
